@@ -76,7 +76,7 @@ def run(ck, with_order=True):
                        seqsyms=[("rlen", lambda x: df.is_call(x, "::remove_content") and x[2][0] == V)])
     bad = None
     try:
-        for env in seqmodel.valuations(["line", "mo"], ["rlen"], 3):
+        for env in seqmodel.valuations(["line", "mo"], ["rlen"], 6 if ck.tier == "thorough" else 3):
             if env["line"] + env["mo"] < 0:
                 continue
             a, b = m.val(rng[3][0], env), m.val(rng[3][1], env)
